@@ -15,12 +15,13 @@ import Driver.Demand
 import Driver.SSM
 import Driver.SingleStage
 import Driver.SerialEch
+import Driver.Registry
 open Lean
 
 namespace Driver
 
 def allHandlers : List (String × Handler) :=
-  Driver.WW.handlers ++ Driver.Sim.handlers ++ Driver.Helpers.handlers ++ Driver.MP.handlers ++ Driver.Graph.handlers ++ Driver.Meio.handlers ++ Driver.Serial.handlers ++ Driver.SS.handlers ++ Driver.RQ.handlers ++ Driver.FH.handlers ++ Driver.EOQ.handlers ++ Driver.GSM.handlers ++ Driver.Demand.handlers ++ Driver.SSM.handlers ++ Driver.SingleStage.handlers ++ Driver.SerialEch.handlers
+  Driver.WW.handlers ++ Driver.Sim.handlers ++ Driver.Helpers.handlers ++ Driver.MP.handlers ++ Driver.Graph.handlers ++ Driver.Meio.handlers ++ Driver.Serial.handlers ++ Driver.SS.handlers ++ Driver.RQ.handlers ++ Driver.FH.handlers ++ Driver.EOQ.handlers ++ Driver.GSM.handlers ++ Driver.Demand.handlers ++ Driver.SSM.handlers ++ Driver.SingleStage.handlers ++ Driver.SerialEch.handlers ++ Driver.Registry.handlers
 
 def dispatch (line : String) : String :=
   match Json.parse line with
